@@ -778,6 +778,18 @@ fn panic_msg(e: Box<dyn std::any::Any + Send>) -> String {
     }
 }
 
+pub fn new_ctx_pub<C: Cv>(
+    role: &'static str,
+    side: &Side,
+    main_tid: u32,
+    consts: Rc<RefCell<HashMap<usize, Fr<C>>>>,
+    commits: Rc<RefCell<Vec<C::G>>>,
+    wide: Option<Fr<C>>,
+    ppc: PedersenGens<C::G>,
+) -> Rc<Ctx<C>> {
+    new_ctx::<C>(role, side, main_tid, consts, commits, wide, ppc, false)
+}
+
 fn new_ctx<C: Cv>(
     role: &'static str,
     side: &Side,
